@@ -13,6 +13,7 @@ driver's `sys.feasible` / `sys.infeasible` / `model.*` counters in the evidence 
 import AdaptaVerif.Lemmas.Vpsc
 import AdaptaVerif.Lemmas.VpscModel
 import AdaptaVerif.Lemmas.VpscFeasible
+import AdaptaVerif.Lemmas.VpscFlag
 namespace AdaptaVerif.Props.C01
 open AdaptaVerif.Check.Vpsc AdaptaVerif.Spec.Vpsc AdaptaVerif.Model.Vpsc
 open AdaptaVerif.Lemmas.Vpsc AdaptaVerif.Lemmas.VpscModel
@@ -185,6 +186,38 @@ theorem flag_complete_solve (st st' : St) (pos : Array Rat) (ret : Bool)
 #guard (match exampleSt.satisfy with
         | (st', .ok _ _) => st'.cons.any (·.unsat) && st'.cons.size == 3 | _ => false)
 
+/-! ## flag soundness (inequality-only "flagged ⇒ infeasible") — the step, invariant assumed
+
+Full statement (DESIGN.md `flag_sound`): for every inequality-only history, a constraint is flagged only
+if the system known to the solver is infeasible.  Proved here: the flagging *step* is sound in every
+state that satisfies the block invariant (active constraints tight, `out` lists linked) — the
+invariant itself is proved preserved only by `merge` (section 4 below), evaluated on every model state by the
+driver (`St.invOk`), and the real code's flags are validated per run by the certified checker
+(`feasible_sound`: SPECFAIL "flagged but feasible").  The other flagging branch
+(`UnsatisfiableException`: no split point) cannot fire without equalities on the path.
+-/
+
+open AdaptaVerif.Lemmas.VpscFlag in
+/-- directed-path branch of `IncSolver::satisfy`: if `isActiveDirectedPathBetween(v.right, v.left)`
+    holds in a state with tight active constraints and `v` is violated, the constraint set has a
+    positive-gap cycle and is infeasible for any non-zero scales. -/
+theorem flag_sound_path_partial (scale : Nat → Rat) (hs : ∀ i, scale i ≠ 0)
+    (st : St) (bid fuel vi : Nat)
+    (hlink : OutsLinked st) (htight : TightActive st) (hmem : st.cons[vi]! ∈ st.cons)
+    (hpath : (isActiveDirectedPathBetween st bid fuel (st.cons[vi]!).r (st.cons[vi]!).l).1 = true)
+    (hviol : st.uval (st.cons[vi]!).r - (st.cons[vi]!).gap - st.uval (st.cons[vi]!).l < 0) :
+    PosCycle (st.cons.toList.map toC) ∧ ¬ Feasible scale (st.cons.toList.map toC) := by
+  have hp := flag_path_sound st bid fuel vi hlink htight hmem hpath hviol
+  exact ⟨hp, cycle_sum scale hs _ hp⟩
+
+-- executable instance of the hypotheses: merge constraints 0 and 1 of `exampleSt`, then constraint 2
+-- (v2 + 1 ≤ v0) is violated, lies in one block, and a directed active path runs from v0 to v2
+#guard (let st := ((exampleSt.mergeAcross 0).1.mergeAcross 1).1
+        let b := (st.vars[0]!).block
+        (isActiveDirectedPathBetween st b 4 0 2).1 &&
+        decide (st.uval 0 - 1 - st.uval 2 < 0) &&
+        st.cons.all (fun c => !c.active || decide (st.uval c.l + c.gap = st.uval c.r)))
+
 /-! ## (4) block invariant — pieces proved so far
 
 Full statement (DESIGN.md `block_inv`), kept for reference:
@@ -220,6 +253,21 @@ theorem block_inv_merge_rigid_partial (st : St) (ci i j : Nat)
      (st'.vars[i]!).block = (st'.vars[j]!).block) ∧
     st'.cons = st.cons.set! ci { st.cons[ci]! with active := true } :=
   ⟨mergeAcross_preserves st ci i j hi hj hsame, mergeAcross_cons st ci⟩
+
+/-- **merge preserves the offset part of `block_inv`** (every active constraint joins two variables of
+    one block and is tight in offsets), for every state and every constraint merged across. -/
+theorem block_inv_merge_preserved_partial (st : St) (ci : Nat) (hinv : OffsetInv st)
+    (hl : (st.cons[ci]!).l < st.vars.size) (hr : (st.cons[ci]!).r < st.vars.size)
+    (hne : (st.vars[(st.cons[ci]!).l]!).block ≠ (st.vars[(st.cons[ci]!).r]!).block) :
+    OffsetInv (st.mergeAcross ci).1 :=
+  mergeAcross_offsetInv st ci hinv hl hr hne
+
+-- the hypotheses are met e.g. by the initial state of `exampleSt` (no active constraint yet) and
+-- its first merge; executable form of the conclusion:
+#guard (let st := (exampleSt.mergeAcross 0).1
+        st.cons.all fun c => !c.active ||
+          ((st.vars[c.l]!).block == (st.vars[c.r]!).block &&
+           decide ((st.vars[c.r]!).offset - c.gap - (st.vars[c.l]!).offset = 0)))
 
 /-- positions inside a block are determined by offsets: the slack of a constraint whose ends share a
     block is `offset_r − gap − offset_l`, whatever the block position -/
